@@ -280,7 +280,12 @@ class FuncTranslator:
             if h.name is not None or h.type is None:
                 bad(s, "except ... as / bare except")
             types = h.type.elts if isinstance(h.type, ast.Tuple) else [h.type]
-            names = lean_list(self.exc_name(t) for t in types)
+            if len(types) == 1 and isinstance(types[0], ast.Name) and types[0].id == "Exception" \
+                    and getattr(builtins, "Exception") is Exception:
+                # `except Exception` catches every class the interpreter knows (all derive from Exception)
+                names = lean_list(KNOWN_EXCEPTIONS.values())
+            else:
+                names = lean_list(self.exc_name(t) for t in types)
             return f"Stmt.tryExcept {self.stmts(s.body)} {names} {self.stmts(h.body)}"
         bad(s, "unsupported statement")
 
